@@ -156,6 +156,24 @@ func runC15(c *Ctx, _ []string) {
 		}
 		tcase(randCase(r, strings.Join(parts, "+")))
 	}
+	// full chains: exactly 8 transforms (every slot of the packed type in use), alone and with NONE fillers around them
+	for i := 0; i < 40*c.Scale; i++ {
+		parts := make([]string, 0, 11)
+		for len(parts) < 8 {
+			t := transformNames[r.Intn(len(transformNames))]
+			if t != "NONE" {
+				parts = append(parts, t)
+			}
+		}
+		if i%8 == 0 {
+			parts[7] = []string{"ROLZX", "LZX", "LZP", "ROLZ"}[r.Intn(4)]
+		}
+		tcase(randCase(r, strings.Join(parts, "+")))
+		withNone := append([]string{}, parts...)
+		pos := r.Intn(9)
+		withNone = append(withNone[:pos], append([]string{"NONE"}, withNone[pos:]...)...)
+		tcase(randCase(r, strings.Join(withNone, "+")))
+	}
 	for _, bad := range []string{"LZZ", "TPAQY", "BWTT", "X", "LZ+", "+LZ", "LZ++ROLZ", "NONE+", "TEXT+FOO", "lz+lzq", "ROLZXX"} {
 		tcase(bad)
 		ecase(bad)
@@ -165,7 +183,7 @@ func runC15(c *Ctx, _ []string) {
 	pairs := []pair{{"ROLZX", "NONE", "text"}, {"ROLZ", "ANS0", "text"}, {"NONE", "TPAQX", "text"}, {"TEXT", "TPAQX", "text"}, {"TEXT", "TPAQ", "text"},
 		{"RLT", "HUFFMAN", "runs"}, {"RLT", "FPAQ", "runs"}, {"TEXT", "ANS0", "text"}, {"TEXT", "CM", "text"}, {"TEXT+RLT", "RANGE", "text"},
 		{"LZX", "NONE", "text"}, {"LZP+TEXT", "HUFFMAN", "text"}, {"ROLZX+ROLZ", "NONE", "text"}, {"NONE+LZ", "HUFFMAN", "text"}, {"TEXT+NONE+BWT", "ANS1", "text"},
-		{"NONE+ROLZX", "NONE", "text"}, {"ROLZX+NONE", "HUFFMAN", "text"}, {"NONE+LZX", "NONE", "text"}, {"RLT+ROLZX", "NONE", "runs"}}
+		{"NONE+ROLZX", "NONE", "text"}, {"ROLZX+NONE", "HUFFMAN", "text"}, {"MM+EXE+UTF+DNA+PACK+ZRLT+RLT+ROLZX", "NONE", "text"}, {"RLT+ZRLT+PACK+MM+UTF+EXE+SRT+LZX", "HUFFMAN", "text"}, {"NONE+LZX", "NONE", "text"}, {"RLT+ROLZX", "NONE", "runs"}}
 	for i := 0; i < 6*c.Scale; i++ {
 		pairs = append(pairs, pair{randChain(r, 3), entropyNames[r.Intn(len(entropyNames))], dataShapes[r.Intn(len(dataShapes))]})
 	}
